@@ -39,6 +39,9 @@ def is_c11(d): return any(opname(x) == 'reset' for x in d.prefix())
 def is_c12(d): return any(opname(x) in DET_OPS for x in d.prefix())
 def is_c18(d): return d.idx <= 0 or any(opname(x) == 'resplit' for x in d.prefix())
 def is_ledger(d):
+    # C08 / C09 speak about histories that follow the documented initialisation rules: once the model itself reports a drop / read
+    # of an empty slot or a leaked value, the history is outside them (a divergence there still breaks the correspondence)
+    if not getattr(d, 'rules_ok', True): return False
     return d.field(d.expected, 'ev') != d.field(d.actual, 'ev') or d.expected.startswith('live=') or \
         ('item=owned' in (d.cfg or '') and d.res(d.expected) != d.res(d.actual))
 
@@ -319,6 +322,7 @@ CHECKS['C16'] = SendCheck()
 class LedgerCheck(SeqCheck):
     """C08 / C09: owned-item histories (three item layouts: 4, 16 and 24 bytes), ledger events compared per step and the
     set of live objects compared at the end of every history."""
+    with_async = True      # the async wrappers push / pop owned items through the same core: part of the footprint
     def suites(self, ctx):
         s = ctx.seed
         if ctx.tier == 'quick':
